@@ -12,16 +12,50 @@ import (
 // as a violation.
 func (c *Ctx) runBatch(specs []*Spec) []*Result {
 	results := c.Pool.Run(specs, nil)
+	// confirmations run in parallel; watchdog verdicts beyond the first few of a batch are
+	// not re-run (each costs the long confirmation timeout) and are then NOT reported
+	var fatal []int
+	nTimeout := 0
 	for i, r := range results {
-		if r.Fatal != "" && r.FatalClass != "infra" {
-			r2 := c.Pool.RunFresh(specs[i])
-			if r2.Fatal == "" {
-				c.Infra("run %s died (%s) but did not reproduce alone; stderr: %s", specs[i].ID, r.FatalClass, clip(r.Stderr, 600))
-				results[i] = r2
-			} else {
-				results[i] = r2
+		if r.Fatal == "" || r.FatalClass == "infra" {
+			continue
+		}
+		if r.FatalClass == "timeout" {
+			nTimeout++
+			if nTimeout > 6 {
+				c.Ev.Probes["watchdog_verdicts_not_confirmed"]++
+				results[i] = &Result{ID: r.ID} // unknown outcome: no verdict
+				continue
 			}
 		}
+		fatal = append(fatal, i)
+	}
+	if len(fatal) > 0 {
+		conf := make([]*Result, len(fatal))
+		sem := make(chan struct{}, c.Pool.n)
+		done := make(chan int, len(fatal))
+		for k, i := range fatal {
+			go func(k, i int) {
+				sem <- struct{}{}
+				conf[k] = c.Pool.RunFresh(specs[i])
+				<-sem
+				done <- k
+			}(k, i)
+		}
+		for range fatal {
+			<-done
+		}
+		for k, i := range fatal {
+			if conf[k].Fatal == "" && results[i].FatalClass == "timeout" {
+				// slow under load, not stuck: the confirmation (alone, longer limit) returned
+				c.Ev.Probes["watchdog_verdicts_not_reproduced"]++
+			} else if conf[k].Fatal == "" {
+				c.Infra("run %s died (%s) but did not reproduce alone; stderr: %s", specs[i].ID, results[i].FatalClass, clip(results[i].Stderr, 600))
+			}
+			results[i] = conf[k]
+		}
+	}
+	for i, r := range results {
 		if r.FatalClass == "infra" {
 			c.Infra("run %s: %s", specs[i].ID, r.Fatal)
 		}
